@@ -35,6 +35,23 @@ OP_STEP_BUDGET = 200000     # line events inside pvl per container operation
 SENT = object()
 
 
+class UserQty(int):
+    """A caller's own quantity class (an int with units): encoders write it
+    as a plain integer unless add_quantity_cls() registered the class."""
+
+    def __new__(cls, value, units=""):
+        self = super().__new__(cls, value)
+        self.units = units
+        return self
+
+    @property
+    def value(self):
+        return int(self)
+
+    def __reduce__(self):
+        return (UserQty, (int(self), self.units))
+
+
 class MC:
     """Model container."""
     __slots__ = ("id", "cls", "items")
@@ -237,6 +254,9 @@ class Machine:
             if "q" in spec:
                 r, m = self.build(spec["q"][0])
                 return Quantity(r, spec["q"][1]), ("Q", m, spec["q"][1])
+            if "uq" in spec:
+                return (UserQty(spec["uq"][0], spec["uq"][1]),
+                        ("UQ", spec["uq"][0], spec["uq"][1]))
             if "empty" in spec:
                 from pvl.parser import EmptyValueAtLine
                 return (EmptyValueAtLine(spec["empty"]),
@@ -254,6 +274,11 @@ class Machine:
             return (type(rv).__name__ == "EmptyValueAtLine" and rv == ""
                     and getattr(rv, "lineno", None) == mv.lineno)
         if type(rv).__name__ == "EmptyValueAtLine":
+            return False
+        if isinstance(mv, tuple) and len(mv) == 3 and mv[0] == "UQ":
+            return (type(rv) is UserQty and int(rv) == mv[1]
+                    and rv.units == mv[2])
+        if type(rv) is UserQty:
             return False
         if isinstance(mv, tuple) and len(mv) == 3 and mv[0] == "Q":
             return (type(rv) is Quantity and self.same(rv.value, mv[1])
@@ -289,6 +314,8 @@ class Machine:
             return tuple(self.model_of(x) for x in rv)
         if isinstance(rv, (set, frozenset)):
             return frozenset(rv)
+        if type(rv) is UserQty:
+            return ("UQ", int(rv), rv.units)
         if type(rv) is Quantity:
             return ("Q", self.model_of(rv.value), rv.units)
         if type(rv).__name__ == "EmptyValueAtLine":
@@ -480,6 +507,20 @@ class Machine:
             self.fail(p.cls, p.detail)
 
     # -- operations ---------------------------------------------------------
+    def mixed_arg(self, pairs_spec):
+        """One positional argument (the first half of the pairs; may be
+        empty) and keyword arguments (the rest, later duplicates win) in a
+        single call: -> (positional, kwargs, model pairs)."""
+        built = [(k, self.build(s)) for k, s in pairs_spec]
+        h = len(built) // 2
+        pos = [(k, r) for k, (r, _) in built[:h]]
+        mp = [(k, m) for k, (_, m) in built[:h]]
+        kw, mkw = {}, {}
+        for k, (r, m) in built[h:]:
+            kw[k] = r
+            mkw[k] = m
+        return pos, kw, mp + list(mkw.items())
+
     def pairs_arg(self, form, pairs_spec):
         """Build the real argument object and the model pair list for the
         ways pairs can be handed to extend/insert/update/constructors."""
@@ -593,6 +634,9 @@ class Machine:
                 mkw[k] = m
             real = CLASSES[cls](**kw)
             mp = list(mkw.items())
+        elif form == "mixed":
+            pos, kw, mp = self.mixed_arg(pairs_spec)
+            real = CLASSES[cls](pos, **kw)
         elif form == "copyctor":
             src = pairs_spec
             if src not in self.reg:
@@ -658,6 +702,10 @@ class Machine:
             for k, m in mkw.items():
                 mc.items.append((k, m))
             return (lambda: real.extend(**kw)), ("ret", None)
+        if form == "mixed":
+            pos, kw, mp = self.mixed_arg(pairs_spec)
+            mc.items.extend(mp)
+            return (lambda: real.extend(pos, **kw)), ("ret", None)
         if form == "malformed":
             arg = [("a", -1), ("b",)] if pairs_spec == 0 else 5
             return (lambda: real.extend(arg)), ("raise-resync",)
@@ -675,6 +723,11 @@ class Machine:
             for k, m in mkw.items():
                 m_setitem(mc, k, m)
             return (lambda: real.update(**kw)), ("ret", None)
+        if form == "mixed":
+            pos, kw, mp = self.mixed_arg(pairs_spec)
+            for k, m in mp:
+                m_setitem(mc, k, m)
+            return (lambda: real.update(pos, **kw)), ("ret", None)
         arg, mp = self.pairs_arg(form, pairs_spec)
         for k, m in mp:
             m_setitem(mc, k, m)
@@ -786,8 +839,11 @@ class Machine:
             if isinstance(mv, MC):
                 self.register_deep(rv, mv, seen)
 
-    def op_copy(self, real, mc, mech, new_id):
-        """["copy", src, mech, new_id]"""
+    def op_copy(self, real, mc, mech, new_id, attrs=None):
+        """["copy", src, mech, new_id, {instance attributes set first}]"""
+        for k, v in (attrs or {}).items():
+            # what a loader does (module.errors) or a caller may do
+            setattr(real, k, list(v) if isinstance(v, list) else v)
         before = core.canon(real)
         try:
             if mech == "method":
